@@ -5,11 +5,10 @@
   `StrokeStyle::Dotted` is outside every property (trusted base): the model has solid strokes only,
   so `fill_area` always shrinks by the inside stroke width.
 -/
-import EG.Model.Target
+import EG.Model.Style
 namespace EG
 
-inductive StrokeAlignment | inside | center | outside
-  deriving DecidableEq, Repr, Inhabited
+-- `StrokeAlignment` is shared with `EG.Model.Style` (same enum, defined once there).
 
 structure PrimStyle where
   fillColor : Option Color
